@@ -130,8 +130,9 @@ def run(rep):
     orig_init = function_wrappers.FunctionScope.__init__
 
     def spy(self, function_name, scope_name, options):
-        seen.append((function_name, options))
-        return orig_init(self, function_name, scope_name, options)
+        r = orig_init(self, function_name, scope_name, options)
+        seen.append((function_name, options, self.callopts))     # callopts: what this scope hands to its callees
+        return r
 
     def victim(x):
         def inner(y):
@@ -161,13 +162,20 @@ def run(rep):
             function_wrappers.FunctionScope.__init__ = orig_init
         e2e += 1
         exp_top, exp_inner = o, o.call_options()
-        tops = [op for (nm, op) in seen if nm == 'victim']
-        inners = [op for (nm, op) in seen if nm != 'victim']
-        ok = out == 10 and len(tops) == 1 and tops[0] == exp_top and inners and all(x == exp_inner for x in inners)
+        tops = [op for (nm, op, co) in seen if nm == 'victim']
+        inners = [op for (nm, op, co) in seen if nm != 'victim']
+        # every scope hands call_options() of its own options to the callees (the specification's CallOpts)
+        handed_ok = all(co == op.call_options() and co.as_tuple() == op.call_options().as_tuple() for (nm, op, co) in seen)
+        ce = rec['callee']
+        top_handed = [co for (nm, op, co) in seen if nm == 'victim']
+        spec_ok = all((co.recursive, co.user_requested, co.internal_convert_user_code) == (ce['r'], ce['u'], ce['i'])
+                      and {f.name for f in co.optional_features} == set(ce['fs']) for co in top_handed)
+        ok = (out == 10 and len(tops) == 1 and tops[0] == exp_top and inners and all(x == exp_inner for x in inners)
+              and handed_ok and spec_ok)
         if not ok:
             rep.violation(_sig(rec, 'e2e-scope-options'),
                           'options reaching FunctionScope differ from those requested (top) / call_options (nested)',
-                          dict(args=rec, result=out, scopes=[(nm, str(op.as_tuple())) for nm, op in seen]))
+                          dict(args=rec, result=out, scopes=[(nm, str(op.as_tuple()), str(co.as_tuple())) for nm, op, co in seen]))
         rep.validated()
     rep.set('end_to_end_conversions', e2e)
     rep.assume('Python evaluation of the embedded text is the evaluation semantics modelled by Evaluate in Options.tla')
